@@ -100,6 +100,23 @@ def lex(fb, text, max_tokens=12, raw=None):
 
     def mc_tok(n):
         return ("error-token", n)
+    if len(lx) > 3:
+        # the lexer has state beyond (current, stream, location): let the crate's own constructor set it up
+        ctor = fb.find("parser::lexer::Lexer::from_char_stream", required=False)
+        if ctor is not None and not getattr(ctor, "missing", False):
+            SRC = object()
+
+            def icpt0(mc, c, a, tt, g):
+                if a and a[0] is SRC and (c.endswith("::peekable") or c.endswith("::into_iter") or c.endswith("::fuse")):
+                    return st if c.endswith("::peekable") else SRC
+                return icpt(mc, c, a, tt, g)
+            try:
+                made = Machine(fb, intercept=icpt0, max_visits=8, budget=200).run(ctor, [SRC])
+                fields_ = made.fields if isinstance(made, Enum) else made
+                if isinstance(fields_, list) and len(fields_) == len(lx) and fields_[names.index("peekable_char_stream")] is st:
+                    lexer = made
+            except (absint.Stuck, absint.Loop):
+                pass
     out = []
     for _ in range(max_tokens):
         mc = Machine(fb, intercept=icpt, max_visits=max(8, len(text) + 4), budget=600)
